@@ -63,6 +63,83 @@ func pinName(rel string, d ast.Decl) []string {
 	return nil
 }
 
+// writesThroughReceiver: every statement of a method of the client (`uhppote`) or the driver (`ut0311`) that stores
+// into the receiver: an assignment, ++/-- or delete/clear whose target is rooted at the receiver (u.x = …,
+// u.devices[k] = …, *u = …) or at a local that was set to a field of the receiver (d := u.devices; d[k] = …).
+// The client and the driver are immutable after construction: the list is expected to be empty.
+func writesThroughReceiver(rel string, fd *ast.FuncDecl) []string {
+	if fd.Recv == nil || len(fd.Recv.List) != 1 || len(fd.Recv.List[0].Names) != 1 || fd.Body == nil {
+		return nil
+	}
+	t := strings.TrimPrefix(src(fd.Recv.List[0].Type), "*")
+	if t != "uhppote" && t != "ut0311" {
+		return nil
+	}
+	recv := fd.Recv.List[0].Names[0].Name
+	roots := map[string]bool{recv: true}
+	root := func(e ast.Expr) (string, bool) { // (root identifier, something was selected / indexed / dereferenced on the way)
+		deep := false
+		for {
+			switch v := e.(type) {
+			case *ast.SelectorExpr:
+				e, deep = v.X, true
+			case *ast.IndexExpr:
+				e, deep = v.X, true
+			case *ast.StarExpr:
+				e, deep = v.X, true
+			case *ast.ParenExpr:
+				e = v.X
+			case *ast.Ident:
+				return v.Name, deep
+			default:
+				return "", deep
+			}
+		}
+	}
+	out := []string{}
+	add := func(n ast.Node) {
+		out = append(out, rel+":"+t+"."+fd.Name.Name+": "+strings.Join(strings.Fields(src(n)), " "))
+	}
+	ast.Inspect(fd.Body, func(n ast.Node) bool {
+		switch v := n.(type) {
+		case *ast.AssignStmt:
+			for _, l := range v.Lhs {
+				if r, deep := root(l); roots[r] && (deep || (r == recv && v.Tok != token.DEFINE)) {
+					add(v)
+					return true
+				}
+			}
+			// a local that now names a field of the receiver: a store through it is a store into the receiver
+			if len(v.Lhs) == len(v.Rhs) {
+				for i, rhs := range v.Rhs {
+					if _, isSel := rhs.(*ast.SelectorExpr); !isSel {
+						continue
+					}
+					if r, deep := root(rhs); r == recv && deep {
+						if id, ok := v.Lhs[i].(*ast.Ident); ok && id.Name != "_" {
+							roots[id.Name] = true
+						}
+					}
+				}
+			}
+		case *ast.IncDecStmt:
+			if r, deep := root(v.X); roots[r] && deep {
+				add(v)
+			}
+		case *ast.CallExpr:
+			if f, ok := v.Fun.(*ast.Ident); ok && (f.Name == "delete" || f.Name == "clear") && len(v.Args) > 0 {
+				if r, _ := root(v.Args[0]); roots[r] {
+					add(v)
+				}
+			}
+		}
+		return true
+	})
+	return out
+}
+
+var receiverWrites = []string{}
+
 func genSource(repo, out string) {
 	type entry struct{ name, hash, text string }
 	entries := []entry{}
@@ -99,6 +176,9 @@ func genSource(repo, out string) {
 				}
 				sum := sha256.Sum256([]byte(text))
 				entries = append(entries, entry{name, fmt.Sprintf("%x", sum[:8]), text})
+				if fd, ok := d.(*ast.FuncDecl); ok && dir == "uhppote" {
+					receiverWrites = append(receiverWrites, writesThroughReceiver(rel, fd)...)
+				}
 				// an operation of the regular shape  guards* ; request := messages.X{…} ; … sendto[T](…) …  is also
 				// entered in four parts, so that a property depends only on the part its model transcribes
 				if fd, ok := d.(*ast.FuncDecl); ok && dir == "uhppote" && fd.Recv != nil && fd.Body != nil && ast.IsExported(fd.Name.Name) {
@@ -172,6 +252,13 @@ func genSource(repo, out string) {
 			first = false
 			b.WriteString(leanStr(e.name))
 		}
+	}
+	b.WriteString("]\n\n/-- every statement of a method of the client or of the driver that stores into its receiver (a field, an entry of a\n    map or slice field, also through a local naming such a field) -/\ndef receiverWrites : List String := [")
+	for i, w := range receiverWrites {
+		if i > 0 {
+			b.WriteString(", ")
+		}
+		b.WriteString(leanStr(w))
 	}
 	b.WriteString("]\n\nend Uhppote.Gen.Source\n")
 	writeIfChanged(filepath.Join(out, "Source.lean"), b.String())
